@@ -150,6 +150,14 @@ func TestVerif_C13(t *testing.T) {
 					continue
 				}
 				s.up = c01UPSEID(m)
+				if rng.Intn(3) == 0 {
+					// the control plane moves the session to another CP F-SEID: reports go to the new one from now on
+					ncp := est.CPSEID ^ 0x5A5A0000
+					if mm := c01Request(p, p.modify(vModSpec{Seq: seq + 500, SEID: s.up, NewCPSEID: &ncp}), seq+500); mm != nil && vDecodeReply(mm).Cause == ie.CauseRequestAccepted {
+						s.cp = ncp
+						res.event("sessions_with_changed_cp_seid", 1)
+					}
+				}
 				ss = append(ss, s)
 			}
 			if len(ss) < 2 {
